@@ -181,6 +181,9 @@ func (mgr *manager) StartTurn() (key.TargetID, float64, []event.TurnStatus, erro
 	for _, t := range mgr.orderHandler.turnOrder {
 		t.gauge -= int64(av * mgr.attr.Stats(t.id).SPD())
 	}
+	// the acting target has used up its whole gauge: av * SPD can round to just below the gauge,
+	// and the truncation would then leave a residue of 1 (so the target would not be at 0 AV)
+	mgr.orderHandler.turnOrder[0].gauge = 0
 
 	mgr.totalAV += av
 	return mgr.activeTarget, av, mgr.EventTurnStatus(), nil
